@@ -5,7 +5,7 @@ import warnings
 from fractions import Fraction as Fr
 import numpy as np
 from ..tracejobs import *
-from .. import symtrace as st, common
+from .. import symtrace as st, common, histories
 from ..gen_lean import Def
 from ..runner import Corr, Failure
 from . import isect_common as ic
@@ -770,10 +770,10 @@ def _tolerated(spt, a, b, e):
     return False
 
 
-def _configs(spt, r, ka, kb, scale):
+def _configs(spt, r, ka, kb, scale, cfg=None):
     """yield (config name, a, b)"""
     P = spt.path
-    cfg = r.choice(['cross', 'cross', 'cross', 'touch', 'disjoint', 'near-miss', 'endpoint', 'random'])
+    cfg = cfg or r.choice(['cross', 'cross', 'cross', 'touch', 'disjoint', 'near-miss', 'endpoint', 'random'])
     classes = (r.choice([None, 'circ0']) if ka == 'arc' else None, r.choice([None, 'circ0']) if kb == 'arc' else None)
     if cfg == 'random':
         return cfg, ic.rand_seg(spt, r, ka, scale, classes[0]), ic.rand_seg(spt, r, kb, scale, classes[1])
@@ -835,12 +835,12 @@ def area_rule_explains(spt, a, b, t1, t2, tol=1e-12):
     return (min(B1[1], B2[1]) - max(B1[0], B2[0]) > -sx) and (min(B1[3], B2[3]) - max(B1[2], B2[2]) > -sy)
 
 
-def check_pairs(spt, a, b, res, fail, info, swapped=None):
+def check_pairs(spt, a, b, res, fail, info, swapped=None, rep=None):
     P = spt.path
     arc = isinstance(a, P.Arc) or isinstance(b, P.Arc)
     size = max(ic.seg_size(a), ic.seg_size(b))
     tol = (1e-3 if arc else 1e-5) * size
-    rep = 'svgpathtools.%r.intersect(svgpathtools.%r)' % (a, b)
+    rep = rep or 'svgpathtools.%r.intersect(svgpathtools.%r)' % (a, b)
     kk = '%s-%s' % (ic.kind_of(spt, a), ic.kind_of(spt, b))
     for pr in res:
         try:
@@ -876,17 +876,31 @@ def sample(ctx, budget=1.0, hint=None, broken=None):
             fails.append(Failure(signature=sig, what=what, input=inp, observed=obs, expected=exp, repro=repro))
 
     warnings.simplefilter('ignore')
-    for it in range(int(ctx.n(260, 4000) * budget)):
+    N_main = int(ctx.n(260, 4000) * budget)
+    N_hist = int(ctx.n(60, 600) * budget)
+    for it in range(N_main + N_hist):
         ka, kb = r.choice(ic.KINDS4), r.choice(ic.KINDS4)
         scale = r.choice([1.0, 1.0, 1.0, 100.0, 1e-2])
-        c = _configs(spt, r, ka, kb, scale)
+        always_hist = it >= N_main       # a second block: crossing pairs whose operands ALL have a past
+        if always_hist:
+            ka, kb = r.choice([('cubic', 'arc'), ('arc', 'cubic'), ('quad', 'arc'), ('arc', 'quad'), ('cubic', 'line'), ('line', 'cubic'), ('cubic', 'quad'),
+                               ('quad', 'line'), ('arc', 'line'), ('line', 'arc')])
+            scale = 1.0
+        c = _configs(spt, r, ka, kb, scale, cfg='cross' if always_hist else None)
         if c is None:
             continue
         cfg, a, b = c
         if a == b:
             continue
-        info = {'a': repr(a), 'b': repr(b), 'config': cfg}
-        rep = 'svgpathtools.%r.intersect(svgpathtools.%r)' % (a, b)
+        srca, srcb, htags = 'svgpathtools.%r' % (a,), 'svgpathtools.%r' % (b,), ()
+        if always_hist or r.random() < 0.3:
+            # operands with a past (measured, evaluated, edited and restored, reversed, copied): harness/histories.py
+            a, srca, ta_ = histories.prepare(spt, r, a, p=1.0, undo_edits=True)
+            b, srcb, tb_ = histories.prepare(spt, r, b, p=1.0 if always_hist else 0.4, undo_edits=True)
+            htags = ta_ + tb_
+        info = {'a': srca if htags else repr(a), 'b': srcb if htags else repr(b), 'config': cfg}
+        rep = '%s.intersect(%s)' % (srca, srcb)
+        rrep = '%s.intersect(%s)' % (srcb, srca)
         n_eval += 1
         kk = '%s-%s' % (ka, kb)
         res = rres = None
@@ -909,20 +923,27 @@ def sample(ctx, budget=1.0, hint=None, broken=None):
             n_timeout += 1
         except Exception as e:
             if not _tolerated(spt, a, b, e):
-                fail('%s-%s/raises %s' % (kb, ka, type(e).__name__), 'intersect raised', info, repr(e)[:200], 'a list of pairs',
-                     'svgpathtools.%r.intersect(svgpathtools.%r)' % (b, a))
+                fail('%s-%s/raises %s' % (kb, ka, type(e).__name__), 'intersect raised', info, repr(e)[:200], 'a list of pairs', rrep)
         if res is not None:
-            check_pairs(spt, a, b, res, fail, info)
+            check_pairs(spt, a, b, res, fail, info, rep=rep)
             n_pairs += len(res)
-            nontriv.add((ka, kb, cfg, ic.arc_class(a) if ka == 'arc' else '', ic.arc_class(b) if kb == 'arc' else '', min(len(res), 3)))
+            nontriv.add((ka, kb, cfg, ic.arc_class(a) if ka == 'arc' else '', ic.arc_class(b) if kb == 'arc' else '', min(len(res), 3), bool(htags)))
         if rres is not None:
-            check_pairs(spt, b, a, rres, fail, info)
+            check_pairs(spt, b, a, rres, fail, info, rep=rrep)
         # operand swap: same crossings, parameters exchanged (decided only where the answer is stable: transversal configurations)
         if res is not None and rres is not None and cfg in ('cross', 'disjoint'):
             A = sorted((float(t1), float(t2)) for t1, t2 in res)
             B = sorted((float(t1), float(t2)) for t2, t1 in rres)
-            ok = len(A) == len(B)
-            if ok:
+            if 'arc' in (ka, kb):
+                # an arc's solvers are approximate (the statement allows 1e-3 of the size for the coincidence of the two points) and may
+                # report one crossing twice with parameters a few 1e-6 apart: "the same crossings" is decided on the crossing POINTS, as
+                # sets, within that tolerance - every crossing of one order is a crossing of the other order
+                size_ = max(abs(a.point(0.5) - a.point(0)), abs(a.point(1) - a.point(0)), abs(b.point(0.5) - b.point(0)), abs(b.point(1) - b.point(0)), 1e-300)
+                near = lambda p_, q_: abs(a.point(p_[0]) - a.point(q_[0])) <= 2e-3 * size_ and abs(b.point(p_[1]) - b.point(q_[1])) <= 2e-3 * size_
+                ok = all(any(near(p_, q_) for q_ in B) for p_ in A) and all(any(near(p_, q_) for p_ in A) for q_ in B)
+            else:
+                ok = len(A) == len(B)
+            if ok and 'arc' not in (ka, kb):
                 # match greedily within 1e-6
                 Bl = list(B)
                 for p in A:
